@@ -106,7 +106,7 @@ META = {
         "technique": "runtime monitoring: sensitivity oracle over one-edit pairs + offline join of per-process hash logs",
     },
     "C15": {
-        "level": "runtime monitor with an independent JSON parser (serde_json) as oracle: random SourceMap values with hostile strings are serialised by to_json / to_writer, parsed independently and by the three crate entry points; values derived by clone() + each setter are serialised and round-tripped as well (the original must stay unchanged); hand-spelled documents (nulls, missing arrays, shuffled keys, \\u escapes, surrogate pairs) are parsed by the crate and compared with the expected value",
+        "level": "runtime monitor with an independent JSON parser (serde_json) as oracle: random SourceMap values with hostile strings are serialised by to_json / to_writer (into a Vec and into short-writing / interrupted writers, byte-identical each time), parsed independently and by the three crate entry points; values derived by clone() + each setter are serialised and round-tripped as well (the original must stay unchanged); hand-spelled documents (nulls, missing arrays, shuffled keys, \\u escapes, surrogate pairs) are parsed by the crate and compared with the expected value",
         "design_ref": "DESIGN.md section 4, C15",
         "note": _TB + "; serde_json is the trusted JSON oracle",
         "technique": "runtime monitoring: differential round-trip against an independent JSON implementation",
